@@ -2,9 +2,10 @@
 C08 — theorems about the merge loop of `get_paragraph_data`.
 -/
 import DebInspector.Props.C08
+import DebInspector.Proofs.Splitlines
 
 namespace Props.C08
-open Py Model.Email
+open Py Model.Email Proofs.Splitlines
 
 theorem dset_keys_mem (d : Dict) (k v : Str) (h : k ∈ d.map (·.1)) : (dset d k v).map (·.1) = d.map (·.1) := by
   induction d with
@@ -96,5 +97,182 @@ example : getParagraphData "From me\na: 1\nb: 3".toList =
     [("unknown".toList, "From me".toList), ("a".toList, "1".toList), ("b".toList, "3".toList)] := by decide +kernel
 example : getParagraphData "a: 1\n\nbody text\n".toList = [("a".toList, "1".toList), ("unknown".toList, "body text".toList)] := by
   decide +kernel
+
+/-! ### the values of the merged mapping -/
+
+theorem joinNl_eq (ls : List Str) : Model.Email.joinNl ls = Model.Debcon.joinNl ls := by
+  induction ls with
+  | nil => rfl
+  | cons l ls ih =>
+    cases ls with
+    | nil => rfl
+    | cons m ms => simp only [Model.Email.joinNl, Model.Debcon.joinNl, ih]
+
+/-- the key of an item, the value of an item, as the merging loop sees them -/
+def keyOf (nv : Str × Str) : Str := strip (lowerAscii nv.1)
+def valOf (nv : Str × Str) : Str := strip nv.2
+
+/-- a single-line value: not empty, no line boundary -/
+def OneLine (v : Str) : Prop := v ≠ [] ∧ NoB v
+
+def addNew (acc : List Str) (v : Str) : List Str := if acc.contains v then acc else acc ++ [v]
+
+/-- distinct values in order of first appearance -/
+def distinct (vs : List Str) : List Str := vs.foldl addNew []
+
+/-- the values spelled for key `k`, in order -/
+def valuesFor (k : Str) (items : List (Str × Str)) : List Str := (items.filter fun nv => keyOf nv = k).map valOf
+
+theorem lookup_dset (d : Dict) (k k' v : Str) :
+    (dset d k v).lookup k' = if k' = k then some v else d.lookup k' := by
+  induction d with
+  | nil =>
+    by_cases e : k' = k
+    · subst e; simp [dset]
+    · have : (k' == k) = false := by simpa using e
+      simp [dset, List.lookup, this, e]
+  | cons kv rest ih =>
+    obtain ⟨a, b⟩ := kv
+    unfold dset
+    by_cases hak : a = k
+    · subst hak
+      simp only [if_true, List.lookup]
+      by_cases e : k' = a
+      · subst e; simp
+      · have : (k' == a) = false := by simpa using e
+        simp [this, e]
+    · simp only [hak, if_false, List.lookup]
+      by_cases e : k' = a
+      · subst e
+        have : ¬ k' = k := hak
+        simp [this]
+      · have : (k' == a) = false := by simpa using e
+        simp only [this, ih]
+
+theorem dropLastEmpty_of_nonempty (ds : List Str) (h : ∀ d ∈ ds, d ≠ []) : dropLastEmpty ds = ds := by
+  induction ds with
+  | nil => rfl
+  | cons l ls ih =>
+    cases ls with
+    | nil =>
+      have : l ≠ [] := h l (by simp)
+      have : l.isEmpty = false := by cases l <;> simp_all
+      simp [dropLastEmpty, this]
+    | cons m ms =>
+      simp only [dropLastEmpty]
+      rw [ih (fun d hd => h d (by simp [hd]))]
+
+theorem splitlines_joinNl_oneLine (ds : List Str) (h : ∀ d ∈ ds, OneLine d) :
+    splitlines (Model.Email.joinNl ds) = ds := by
+  rw [joinNl_eq, splitlines_joinNl ds (fun d hd => (h d hd).2), dropLastEmpty_of_nonempty ds (fun d hd => (h d hd).1)]
+
+theorem addNew_mem (acc : List Str) (v : Str) : ∀ x ∈ addNew acc v, x ∈ acc ∨ x = v := by
+  intro x hx
+  unfold addNew at hx
+  split at hx
+  · exact Or.inl hx
+  · simpa using hx
+
+theorem distinct_mem (vs : List Str) : ∀ x ∈ distinct vs, x ∈ vs := by
+  unfold distinct
+  suffices h : ∀ acc, ∀ x ∈ vs.foldl addNew acc, x ∈ acc ∨ x ∈ vs by
+    intro x hx; rcases h [] x hx with h | h
+    · cases h
+    · exact h
+  induction vs with
+  | nil => intro acc x hx; exact Or.inl hx
+  | cons v vs ih =>
+    intro acc x hx
+    rcases ih (addNew acc v) x hx with h | h
+    · rcases addNew_mem acc v x h with h | h
+      · exact Or.inl h
+      · exact Or.inr (by simp [h])
+    · exact Or.inr (by simp [h])
+
+theorem distinct_snoc (vs : List Str) (v : Str) : distinct (vs ++ [v]) = addNew (distinct vs) v := by
+  simp [distinct, List.foldl_append]
+
+theorem distinct_ne_nil (vs : List Str) (h : vs ≠ []) : distinct vs ≠ [] := by
+  unfold distinct
+  suffices h' : ∀ acc : List Str, ∀ vs : List Str, (acc ≠ [] ∨ vs ≠ []) → vs.foldl addNew acc ≠ [] from h' [] vs (Or.inr h)
+  intro acc vs
+  induction vs generalizing acc with
+  | nil => intro h; rcases h with h | h; exact h; exact absurd rfl h
+  | cons v vs ih =>
+    intro _
+    apply ih
+    left
+    unfold addNew
+    split
+    · rename_i hc; intro e; subst e; simp at hc
+    · simp
+
+def spec (k : Str) (items : List (Str × Str)) : Option Str :=
+  if valuesFor k items = [] then none else some (Model.Email.joinNl (distinct (valuesFor k items)))
+
+theorem mergeStep_spec (d : Dict) (pre : List (Str × Str)) (nv : Str × Str)
+    (hpre : ∀ x ∈ pre, OneLine (valOf x)) (hinv : ∀ k, d.lookup k = spec k pre) (k : Str) :
+    (mergeStep d nv).lookup k = spec k (pre ++ [nv]) := by
+  have ih := hinv k
+  unfold spec at ih ⊢
+  unfold mergeStep
+  simp only
+  have hvf : valuesFor k (pre ++ [nv]) =
+      if keyOf nv = k then valuesFor k pre ++ [valOf nv] else valuesFor k pre := by
+    unfold valuesFor
+    rw [List.filter_append]
+    by_cases e : keyOf nv = k <;> simp [e]
+  by_cases e : keyOf nv = k
+  · have e' : strip (lowerAscii nv.1) = k := e
+    rw [e']
+    rw [hvf, if_pos e]
+    have hne : valuesFor k pre ++ [valOf nv] ≠ [] := by simp
+    rw [if_neg hne, distinct_snoc, ih]
+    by_cases hemp : valuesFor k pre = []
+    · rw [if_pos hemp]
+      simp only [lookup_dset, if_true, hemp, distinct, List.foldl_nil, addNew]
+      simp [Model.Email.joinNl, valOf]
+    · rw [if_neg hemp]
+      simp only [lookup_dset, if_true]
+      have hall : ∀ d ∈ distinct (valuesFor k pre), OneLine d := by
+        intro d hd
+        have := distinct_mem _ d hd
+        unfold valuesFor at this
+        simp only [List.mem_map, List.mem_filter] at this
+        obtain ⟨x, ⟨hx, _⟩, rfl⟩ := this
+        exact hpre x hx
+      rw [splitlines_joinNl_oneLine _ hall]
+      unfold addNew valOf
+      rfl
+  · have e' : ¬ k = strip (lowerAscii nv.1) := fun x => e x.symm
+    rw [hvf, if_neg e]
+    cases hl : List.lookup (strip (lowerAscii nv.1)) d with
+    | none => simp only [lookup_dset, e', if_false]; exact ih
+    | some old => simp only [lookup_dset, e', if_false]; exact ih
+
+theorem foldl_mergeStep_spec (items pre : List (Str × Str)) (d : Dict)
+    (h : ∀ x ∈ pre ++ items, OneLine (valOf x)) (hinv : ∀ k, d.lookup k = spec k pre) (k : Str) :
+    (items.foldl mergeStep d).lookup k = spec k (pre ++ items) := by
+  induction items generalizing pre d with
+  | nil => simpa using hinv k
+  | cons nv rest ih =>
+    rw [List.foldl_cons]
+    have := ih (pre ++ [nv]) (mergeStep d nv) (by simpa using h)
+      (mergeStep_spec d pre nv (fun x hx => h x (by simp [hx])) hinv)
+    simpa using this
+
+/-- **duplicates merge losslessly** — after the merging loop, every key maps to the distinct values
+spelled for it (trimmed), in order of first appearance, newline-separated; for any number of items,
+any pattern of repeated names and repeated values, provided the trimmed values are single lines -/
+theorem mergeItems_lookup (items : List (Str × Str)) (h : ∀ nv ∈ items, OneLine (valOf nv)) (k : Str) :
+    (mergeItems items).lookup k =
+      if valuesFor k items = [] then none else some (Model.Email.joinNl (distinct (valuesFor k items))) := by
+  have := foldl_mergeStep_spec items [] [] (by simpa using h) (by intro k; simp [spec, valuesFor, List.lookup]) k
+  simpa [mergeItems, spec] using this
+
+/-- non-vacuity: a, b, a and a, a, b patterns interleaved with another field -/
+example : mergeItems [("A".toList, "1".toList), ("b".toList, "x".toList), ("a".toList, " 2 ".toList), ("a".toList, "1".toList), ("B".toList, "x".toList)]
+    = [("a".toList, "1\n2".toList), ("b".toList, "x".toList)] := by decide +kernel
+
 
 end Props.C08
